@@ -100,7 +100,7 @@ CLAIMED.update({
         "Coq proof (invariant by induction over histories + refinement of reads to from-scratch functions) + history correspondence",
         "DESIGN.md 4/C02"),
     "C07": (
-        "11 Coq theorems (coq/Properties/C07.v): loose/strict = restriction of the track map, uri/modality carried, extrude = "
+        "14 Coq theorems (coq/Properties/C07.v): loose/strict = restriction of the track map, uri/modality carried, extrude = "
         "crop on the complement with modes swapped, intersection mode = exactly one (s & r, label) track per original track "
         "and intersecting support region (multiset equality by Permutation, invariant preserved, names never overwritten), "
         "and per label crop time + extrude time = original time (exact on unit cells at eps = 0). The correspondence "
@@ -125,7 +125,7 @@ CLAIMED.update({
         "Coq proof (purity on the value model; frame theorem for independence) + per-case observation of separation and derive-then-mutate histories",
         "DESIGN.md 4/C08"),
     "C09": (
-        "9 Coq theorems (coq/Properties/C09.v): support(collar) holds exactly one track per label in use and segment of that "
+        "11 Coq theorems (coq/Properties/C09.v): support(collar) holds exactly one track per label in use and segment of that "
         "label's timeline support(collar) (Permutation; track names distinct by injectivity of the bijective base-26 words), "
         "label_duration = measure of the union, chart sorted / complete / duplicate-free, argmax maximal with and without "
         "support, matrix entries and transpose. The correspondence compares support(collar) as (segment, label) "
@@ -136,7 +136,7 @@ CLAIMED.update({
         "Coq proof (invariants, Permutation, permutation-invariant sums) + correspondence evaluated in Coq",
         "DESIGN.md 4/C09"),
     "C11": (
-        "13 Coq theorems (coq/Properties/C11.v): rename_labels gives every track mapping.get(label, label) exactly once "
+        "16 Coq theorems (coq/Properties/C11.v): rename_labels gives every track mapping.get(label, label) exactly once "
         "(swap and chain corollaries), keeps segments, track names, uri, modality, in place or on a copy, and keeps the "
         "C02 invariant; subset(L) / subset(L, invert=True) keep exactly the tracks whose label is / is not in L and "
         "partition the annotation; rename_tracks keeps every (segment, label) with the k-th track named by the k-th generated "
@@ -169,7 +169,7 @@ CLAIMED.update({
         "Coq proof (Z division lemmas, lia/nia) + exhaustive small-geometry correspondence",
         "DESIGN.md 4/C14"),
     "C15": (
-        "10 Coq theorems (coq/Properties/C15.v): loose = frames touching the focus, strict = frames inside it, strict "
+        "13 Coq theorems (coq/Properties/C15.v): loose = frames touching the focus, strict = frames inside it, strict "
         "subset of loose, center by definition of closest_frame, fixed count = samples, index array = range, Timeline "
         "focus = increasing duplicate-free union over support segments, empty focus empty; return_ranges = separated half-open "
         "runs describing exactly the same index set (merge rule proved set-preserving from monotonicity of the per-segment ranges).",
@@ -184,7 +184,7 @@ CLAIMED.update({
         "Coq proof + correspondence evaluated in Coq",
         "DESIGN.md 4/C16"),
     "C17": (
-        "15 Coq theorems (coq/Properties/C17.v): the centre rule for ranges, the assembled discretize matrix (window, frame count, "
+        "17 Coq theorems (coq/Properties/C17.v): the centre rule for ranges, the assembled discretize matrix (window, frame count, "
         "label order, entry = 1 iff the frame is in a centre-mode range of the label's support, clipping never wraps), the "
         "one_hot_encoding matrix (-1 outside the support, saturation, refusal of a missing label), decode error bounds and the "
         "refutation of the one-step claim (F7). The correspondence checks discretize and one_hot_encoding "
@@ -195,7 +195,7 @@ CLAIMED.update({
         "Coq proof (rounding lemmas by nia, range-merge invariants) + correspondence with boolean specification evaluated in Coq",
         "DESIGN.md 4/C17"),
     "C19": (
-        "13 Coq theorems (coq/Properties/C19.v): int_generator, pairwise, string_generator as the filtered stream of "
+        "14 Coq theorems (coq/Properties/C19.v): int_generator, pairwise, string_generator as the filtered stream of "
         "words (skip honoured, order kept), new_track returns the candidate when free else a fresh name = prefix + least "
         "free integer (pigeonhole proved), random_subsegment inside its source for every draw u in [0,1); the words are the bijective "
         "base-26 numerals (value i + 1, capitals only) hence never collide. to_annotation and random_segment are tied only.",
